@@ -596,3 +596,89 @@ def funcKind (inClass : Bool) (ns : Ns) (decos : List Deco) : Option KindClass :
   (applyDecos ns decos (.func false none)).map (kindClass inClass)
 
 end PySem
+
+/-! # The agreed subset, as a decidable predicate on one scope's statements
+
+`Subset.inSubset c stmts`: every name is bound once (`name = staticmethod(name)` right in the class
+that defined `name` as a plain method is the one allowed rebinding), decorators of a `def` are bare
+`classmethod` / `staticmethod` / `property` (in a class only, at most one of them per `def`), identity
+decorators defined in the package whose name does not end in `property`/`Property`, or non-name
+expressions; no `@x.setter` / `@x.deleter` / `@overload`; no bare annotation; no string statement while
+`currentAttr` is a property; `else`/`finally` parts bind nothing; an assigned name of a class does not
+shadow an inherited method or nested class; the external base names reachable from a class are classified
+alike by `_STD_LIB_EXCEPTIONS` and by `builtins`. -/
+namespace Subset
+open Ir
+
+def isDesc : Deco → Bool
+  | .builtin _ _ => true
+  | _ => false
+
+def isPropertyDeco : Deco → Bool
+  | .builtin .property _ => true
+  | _ => false
+
+def decoOk (inClass : Bool) : Deco → Bool
+  | .builtin _ q => inClass && !q
+  | .opaque n => !Builder.endsWith n Builder.sProperty && !Builder.endsWith n Builder.sPropertyCap
+      && n != Builder.sClassmethod && n != Builder.sStaticmethod
+  | .unnamed => true
+  | .setter _ => false
+  | .deleter _ => false
+  | .overload => false
+
+def decosOk (inClass : Bool) (ds : List Deco) : Bool :=
+  ds.all (decoOk inClass) && (ds.filter isDesc).length ≤ 1
+
+/-- decorators that hand back their argument (class decorators of the subset) -/
+def transparent : Deco → Bool
+  | .opaque _ => true
+  | .unnamed => true
+  | _ => false
+
+/-- a statement that binds nothing on either side -/
+def inert : Stmt → Bool
+  | .other => true
+  | .attrDoc _ => true
+  | _ => false
+
+def basesOk (c : Ctx) (bases : List Base) : Bool :=
+  (extNames c.env (c.env.length + 1) bases).all (fun n => c.pdExc.contains n == c.pyExc.contains n)
+
+structure Seen where
+  names : List Name := []       -- names bound so far, in binding order
+  plain : List Name := []       -- bound by a `def` of a class without descriptor decorator, not wrapped yet
+  curProp : Bool := false       -- `currentAttr` is a property
+  deriving Repr
+
+mutual
+def checkStmt (c : Ctx) (sn : Seen) : Stmt → Option Seen
+  | .classDef n bases decos _ _ =>
+    if sn.names.contains n || !decos.all transparent || !basesOk c bases then none
+    else some { names := sn.names ++ [n], plain := sn.plain, curProp := false }
+  | .funcDef n _ decos _ =>
+    if sn.names.contains n || !decosOk c.inClass decos then none
+    else some { names := sn.names ++ [n],
+                plain := if c.inClass && !decos.any isDesc then sn.plain ++ [n] else sn.plain,
+                curProp := decos.any isPropertyDeco }
+  | .assign n _ _ =>
+    if sn.names.contains n || (c.inClass && c.inheritedNonAttr.contains n) then none
+    else some { names := sn.names ++ [n], plain := sn.plain, curProp := false }
+  | .annOnly _ _ => none
+  | .attrDoc _ => if sn.curProp then none else some sn
+  | .block _ body tail => if tail.all inert then checkList c sn body else none
+  | .ifMain _ => some sn
+  | .oldStyle n _ =>
+    if c.inClass && sn.plain.contains n then some { sn with plain := sn.plain.filter (· != n) } else none
+  | .other => some sn
+def checkList (c : Ctx) (sn : Seen) : List Stmt → Option Seen
+  | [] => some sn
+  | st :: rest =>
+    match checkStmt c sn st with
+    | some sn' => checkList c sn' rest
+    | none => none
+end
+
+def inSubset (c : Ctx) (stmts : List Stmt) : Bool := (checkList c {} stmts).isSome
+
+end Subset
